@@ -280,8 +280,28 @@ Fixpoint block_with (rs : pstmt -> M (option stmt)) (ss : list pstmt) : M (list 
 Record rflags := mkFlags {
   if_truncates : bool;        (* fn if_branch *)
   case_truncates : bool;      (* fn case_branch *)
-  else_truncates : bool       (* the `fall_through` block of a case, resolved inside fn expression *)
+  else_truncates : bool;      (* the `fall_through` block of a case, resolved inside fn expression *)
+  access_local_first : bool   (* `x.f`: is x looked up on the scope stack before the namespace table?
+                                 On the pinned tree it is not (AK::Access calls namespace_list first). *)
 }.
+
+(* the innermost name of a chain of accesses `x.a.b`, if the assignable is such a chain *)
+Fixpoint chain_root (a : passign) : option string :=
+  match a with
+  | ARead i _ => Some (i_name i)
+  | AAccess a' _ _ => chain_root a'
+  | _ => None
+  end.
+
+Definition root_on_stack (st : rstate) (a : passign) : bool :=
+  match chain_root a with
+  | Some x => match stack_find (st_stack st) x with Some _ => true | None => false end
+  | None => false
+  end.
+
+(* the namespace test of `a.x` *)
+Definition access_namespace (fl : rflags) (st : rstate) (fid : N) (a : passign) : res (option N) :=
+  if access_local_first fl && root_on_stack st a then Ok None else namespace_list st fid a.
 
 Definition truncate_if (b : bool) (len : nat) : M unit := if b then truncate len else ret tt.
 
@@ -440,7 +460,7 @@ with assign_r (fl : rflags) (fuel : nat) (a : passign) {struct fuel} : M expr :=
         args' <- mapM re args ;;
         ret (ECall fn' (extra' :: args') sp)
     | AAccess a' i sp =>
-        ns <- lift (fun st => namespace_list st (sp_file sp) a') ;;
+        ns <- lift (fun st => access_namespace fl st (sp_file sp) a') ;;
         match ns with
         | Some ns =>
             o <- lift (fun st => lookup_global st ns (i_name i)) ;;
